@@ -640,4 +640,44 @@ Lemma bsent_entries (ts : list optup) :
 Proof.
   unfold bsent, broadcast_entries. rewrite number_from_map, !map_map. apply map_ext. intros [k t]. reflexivity.
 Qed.
+
+(* ================= the current source: set_zero is safe on every object ================= *)
+Lemma zero_safe_now (s : sR) o : zero_safe s o.
+Proof. left. exact small_branch_repaired. Qed.
+
+Theorem pso_call_in_place_now ro doms rans xs outs xd (se : list sent) (s : sR) :
+  Forall (ent_ok ro doms rans) se -> outs_static ro rans xs outs -> args_ok ro doms xs xd s ->
+  (forall i o ri, nth_error outs i = Some o -> nth_error rans i = Some ri -> exists d, rd s o = Some (ri, d)) ->
+  exists s', pso_call junk (map fst se) doms rans xs (Some outs) s = Ok outs s' /\
+    (forall i o ri, nth_error outs i = Some o -> nth_error rans i = Some ri ->
+        rd s' o = Some (ri, cl (oop_rows rans xd se i))) /\
+    ext s s' outs /\ wf_store s'.
+Proof.
+  intros HF HO HA Hex.
+  destruct (pso_call_in_place ro doms rans xs outs xd se s HF HO HA Hex (fun o _ => zero_safe_now s o))
+    as (s' & Hc & R & E & W').
+  exists s'. splits; [exact Hc | | exact E | exact W'].
+  intros i o ri Ei Eri. rewrite (R i o ri Ei Eri). f_equal. f_equal. f_equal.
+  destruct HA as (W & G & X & Lx).
+  apply rows_agree; [|apply (proj1 (nth_error_Some rans i)); rewrite Eri; discriminate].
+  apply (ents_lengths ro doms rans xd se (good_ro_wf ro s W G) HF).
+  intros j dj Ed.
+  destruct (nth_error xs j) as [xj|] eqn:Ex.
+  - eapply wf_len; [exact W | apply (X j xj dj Ex Ed)].
+  - exfalso. apply nth_error_None in Ex. assert (nth_error doms j <> None) by congruence.
+    apply nth_error_Some in H. lia.
+Qed.
+
+Theorem cpadj_ip_now i x (outs : list nat) (sps : list space) (s : sR) dx spi oi :
+  wf_store s -> NoDup outs -> length outs = length sps -> ~ In x outs ->
+  rd s x = Some (spi, cl dx) -> nth_error outs i = Some oi -> nth_error sps i = Some spi ->
+  (forall k o sp, nth_error outs k = Some o -> nth_error sps k = Some sp -> exists d, rd s o = Some (sp, d)) ->
+  exists s', cpadj_ip i x outs s = Ok tt s' /\ wf_store s' /\ ext s s' outs /\
+    rd s' oi = Some (spi, cl dx) /\
+    (forall k o sp, k <> i -> nth_error outs k = Some o -> nth_error sps k = Some sp ->
+        rd s' o = Some (sp, cl (zvec sp))).
+Proof.
+  intros W ND L Nx Ex Eoi Espi H. apply (cpadj_ip_ok i x outs sps s dx spi oi W ND L Nx Ex Eoi Espi).
+  intros k o sp Ek Es. split; [apply (H k o sp Ek Es) | apply zero_safe_now].
+Qed.
 End PProofs.
